@@ -3,6 +3,7 @@
   Theorems about AITB.Model.MDP; all sizes, horizons, rational inputs.
 -/
 import AITB.Model.MDP
+import AITB.Gen.C01Sites
 import Mathlib.Algebra.Order.Field.Rat
 import Mathlib.Algebra.BigOperators.Group.Finset.Basic
 import Mathlib.Algebra.Order.BigOperators.Group.Finset
@@ -1216,6 +1217,18 @@ theorem pe_stop_bound (m : MDP) (rep : Rep) (hrep : RepOK m rep) (hγ0 : 0 ≤ m
       apply bellmanPi_contraction m p.get hp _ _ _ hγ0 hT _ s hs
       intro u hu
       exact maxAbsDiff_ge m.S _ _ u hu
+
+/-! ## translator obligation: the statement order / operators the model hard-codes are the ones found in the source now -/
+
+/-- `tools/extract_c01.py` locates (in order) the statements of the VI and PE loops, the LP rows and the argmax loop in the
+    current source and fails loudly when one is missing or out of order; this obligation ties the model's shape to what it found
+    (test on generated literals: `decide`). -/
+theorem sites_match_model :
+    AITB.Gen.C01.viLoopOrder = ["init2tol", "useTolSmall", "while", "inc", "save", "discount", "computeQ", "bellman", "absmax", "ret"] ∧
+    AITB.Gen.C01.peLoopOrder = ["init2tol", "useTolSmall", "while", "save", "discount", "computeQ", "dot", "absmax"] ∧
+    AITB.Gen.C01.lpSites = ["objUniform", "minimise", "rowEigen", "rowGeneric", "plusOne", "GE", "assembleQ"] ∧
+    AITB.Gen.C01.bellmanInplaceIsMaxCoeffOverActions = true ∧
+    AITB.Gen.C01.computeQSites = ["irGeneric", "qEigen", "qGeneric"] := by decide
 
 /-! ## the hypotheses are satisfiable: a concrete non-trivial MDP (2 states, 2 actions, negative reward, self-loop) -/
 
